@@ -3,6 +3,7 @@ mod child;
 mod framework;
 mod gen;
 mod model;
+mod persist;
 mod procsim;
 mod sched;
 mod store;
@@ -39,6 +40,10 @@ macro_rules! with_workload {
                 let $w = store::StoreWorkload { focus };
                 $body
             }
+            "C09" => {
+                let $w = persist::PersistWorkload;
+                $body
+            }
             _ => $else,
         }
     };
@@ -50,6 +55,7 @@ fn plan_for(id: &str) -> (u64, u64, u64, u64) {
         "C11" => (600, 40000, 300, 2400),
         "C06" | "C07" | "C08" | "C13" | "C14" => (1500, 80000, 300, 2400),
         "C10" => (1000, 50000, 300, 2400),
+        "C09" => (800, 40000, 300, 2400),
         _ => (100, 1000, 300, 2400),
     }
 }
